@@ -81,6 +81,39 @@ func (k *checker) belowFloor(what string, want, got any, err error) {
 	}
 }
 
+// CheckStateErrorOrCorrect: a state read "as of block n" may be refused, but whatever it returns
+// must be the value as of block n - never a value reconstructed from partially pruned history.
+func (k *checker) CheckStateErrorOrCorrect(n int, g *chaingen.Gen) {
+	b := k.m.Chain[n]
+	r, closer, err := k.n.BC.StateAtBlockNumber(b.B.Number)
+	k.n.c.Evals++
+	if err != nil {
+		return
+	}
+	defer func() { _ = closer() }()
+	addrs := append(append([]felt.Felt(nil), g.Addrs...), felt.One, felt.FromUint64[felt.Felt](2))
+	for _, a := range addrs {
+		c := b.Post.Contracts[a]
+		if c == nil {
+			continue
+		}
+		if !c.System {
+			if ch, err := r.ContractClassHash(&a); err == nil && !ch.Equal(&c.ClassHash) {
+				k.fail("pruned_partial", "state.ContractClassHash", "StateAtBlockNumber(%d).ContractClassHash(%s)=%s want %s (history partially pruned)", b.B.Number, a.String(), ch.String(), c.ClassHash.String())
+			}
+			if nn, err := r.ContractNonce(&a); err == nil && !nn.Equal(&c.Nonce) {
+				k.fail("pruned_partial", "state.ContractNonce", "StateAtBlockNumber(%d).ContractNonce(%s)=%s want %s (history partially pruned)", b.B.Number, a.String(), nn.String(), c.Nonce.String())
+			}
+		}
+		for _, sl := range k.querySlots(g) {
+			want := c.Storage[sl]
+			if got, err := r.ContractStorage(&a, &sl); err == nil && !got.Equal(&want) {
+				k.fail("pruned_partial", "state.ContractStorage", "StateAtBlockNumber(%d).ContractStorage(%s,%s)=%s want %s (history partially pruned)", b.B.Number, a.String(), sl.String(), got.String(), want.String())
+			}
+		}
+	}
+}
+
 func (k *checker) CheckBelowFloor(b *chaingen.Block, stateMustFail bool) {
 	bc := k.n.BC
 	num := b.B.Number
@@ -163,12 +196,45 @@ func C16(c *sim.Ctx) {
 	}
 	var images []pruneImage
 	inOwnOp := false
+	// fault class: one commit issued by the pruner fails (own operations are not counted)
+	injectPruneError := t.Draw("prune.error", 4) == 0
+	failAt := 0
+	if injectPruneError {
+		failAt = 1 + t.Draw("prune.error.at", 6)
+	}
+	var midFail *mismatch // found by the reader that runs between two prune batch commits
+	pruneCommits := 0
 	hookImages := func(n *Node) {
+		n.FDB.Plan.FailCommitAt = 0
+		n.FDB.Plan.BeforeCommit = func(int) {
+			if inOwnOp || failAt == 0 {
+				return
+			}
+			pruneCommits++
+			if pruneCommits == failAt {
+				// arm the failure for exactly this commit
+				n.FDB.Plan.FailCommitAt = n.FDB.Commits
+			}
+		}
 		n.FDB.Plan.AfterCommit = func(int) {
-			if !inOwnOp && len(images) < 4 {
+			if inOwnOp {
+				return
+			}
+			if len(images) < 4 {
 				images = append(images, pruneImage{n.St.CrashImage(c), allowed})
 				c.Logf("crash image %d taken after a prune batch commit (entitled floor %d)", len(images), allowed)
 				c.Fault("crash_image_after_prune_batch")
+			}
+			// a reader scheduled between two batch writes of the prune: whatever state read the node
+			// admits must be correct
+			if midFail == nil && len(m.Chain) > 0 {
+				k := &checker{n: n, m: m}
+				midFail = k.try(func() {
+					for i := range m.Chain {
+						k.CheckStateErrorOrCorrect(i, d.g)
+					}
+				})
+				c.Probe("reader_between_prune_batches")
 			}
 		}
 	}
@@ -196,7 +262,7 @@ func C16(c *sim.Ctx) {
 				cutoff := uint64(time.Now().Add(-minAge).Unix())
 				for i := uint64(0); i < oldest; i++ {
 					if m.Chain[i].B.Timestamp >= cutoff {
-						k.fail("pruned_too_young", "min_age", "block %d (timestamp %d) was pruned although it is younger than the minimum age (cutoff %d)", i, m.Chain[i].B.Timestamp, cutoff)
+						k.fail("pruned_too_young", "min_age", "block %d (timestamp start%+ds) was pruned although it is younger than the minimum age (cutoff start%+ds)", i, int64(m.Chain[i].B.Timestamp)-start.Unix(), int64(cutoff)-start.Unix())
 					}
 				}
 				c.Probe("min_age_prune")
@@ -205,10 +271,21 @@ func C16(c *sim.Ctx) {
 		}
 		k.CheckRoot()
 		head := m.Head().B.Number
-		for i := oldest; i <= head; i++ {
+		if c.Knobs["debug"] != "" {
+			c.Logf("DEBUG check: oldest=%d allowed=%d inject=%v head=%d", oldest, allowed, injectPruneError, head)
+		}
+		// With a failed (interrupted) prune the node has already raised its floor to the prune's
+		// target while the database's oldest retained block is still the old one: blocks between the
+		// two are mid-prune. What must be complete is everything at or above the floor a prune was
+		// entitled to; below it every answer is "error or correct".
+		lo := oldest
+		if injectPruneError && allowed > int64(lo) {
+			lo = minU64(uint64(allowed), head)
+		}
+		for i := lo; i <= head; i++ {
 			k.CheckBlock(m.Chain[i])
 		}
-		from := oldest
+		from := lo
 		if from > 0 {
 			from-- // historical state from one block below the floor upwards
 		}
@@ -216,13 +293,14 @@ func C16(c *sim.Ctx) {
 		for _, i := range []uint64{from, minU64(from+1, head), head} {
 			k.CheckStateAt(int(i), d.g, i == head)
 		}
-		for i := uint64(0); i < oldest; i++ {
-			k.CheckBelowFloor(m.Chain[i], oldest >= 2 && i < oldest-1)
+		for i := uint64(0); i < lo; i++ {
+			k.CheckBelowFloor(m.Chain[i], !injectPruneError && oldest >= 2 && i < oldest-1)
+			k.CheckStateErrorOrCorrect(int(i), d.g)
 		}
 		for j := 0; j < 2; j++ {
 			f := genFilter(c, d.g, head)
-			if f.from < oldest {
-				f.from = oldest
+			if f.from < lo {
+				f.from = lo
 			}
 			if f.to < f.from {
 				f.to = head
@@ -250,7 +328,7 @@ func C16(c *sim.Ctx) {
 			}
 			inOwnOp = false
 			m.Chain = append(m.Chain, b)
-			c.Logf("store block %d ts=%d", b.B.Number, b.B.Timestamp)
+			c.Logf("store block %d ts=start%+ds", b.B.Number, int64(b.B.Timestamp)-start.Unix())
 			noteBound()
 			p.heads.Send(CloneBlock(b.B))
 		case op <= 8:
@@ -325,6 +403,13 @@ func C16(c *sim.Ctx) {
 			hookImages(p.n)
 		}
 		synctest.Wait()
+		if midFail != nil {
+			c.Fail("mid_prune_read", midFail.class+":"+midFail.key, "a reader scheduled between two batch writes of a prune: %s", midFail.detail)
+		}
+		for _, f := range p.n.FDB.Fired {
+			c.Fault("prune_" + f)
+		}
+		p.n.FDB.Fired = nil
 		check(p.n, "pruned")
 	}
 	// twin sanity: the unpruned node still has everything (the model itself is validated)
